@@ -115,13 +115,14 @@ fn accessor(carrier: &str, date: u32, time: u32) -> Result<Option<i64>, Fail> {
             }
         }
         "volume_header" => {
-            let h = wire::VolHeaderSpec {
-                tape: *b"AR2V0006.",
-                ext: *b"001",
-                date,
-                time,
-                icao: *b"KTLX",
-            };
+            // the text fields around the pair are noise too: every tape filename the ICD knows (the legacy
+            // "ARCHIVE2." and the versioned "AR2V00xx." ones) and arbitrary bytes, extension numbers, site identifiers
+            let n = noise(date, time, 7);
+            const TAPES: [&[u8; 9]; 8] = [b"AR2V0006.", b"ARCHIVE2.", b"AR2V0001.", b"AR2V0002.", b"AR2V0003.", b"AR2V0004.", b"AR2V0007.", b"AR2V0008."];
+            let tape: [u8; 9] = if n % 10 == 9 { let b = n.to_be_bytes(); [b[0], b[1], b[2], b[3], b[4], b[5], b[6], b[7], b[0] ^ b[7]] } else { *TAPES[(n % 9).min(7) as usize] };
+            let ext = [b'0' + ((n >> 8) % 10) as u8, b'0' + ((n >> 12) % 10) as u8, b'0' + ((n >> 16) % 10) as u8];
+            const SITES: [&[u8; 4]; 6] = [b"KTLX", b"PHWA", b"TJUA", b"NOP4", b"DAN1", b"\0\0\0\0"];
+            let h = wire::VolHeaderSpec { tape, ext, date, time, icao: *SITES[((n >> 20) % 6) as usize] };
             let bytes = h.encode();
             let hdr = nexrad_data::volume::Header::deserialize(&mut &bytes[..])
                 .map_err(|e| Fail::new("decode-error", format!("{:?}", e)))?;
